@@ -60,7 +60,7 @@ func NewGen(seed int64, profile string) *Gen {
 func (g *Gen) pick(ss []string) string { return ss[g.r.Intn(len(ss))] }
 func (g *Gen) chance(p float64) bool   { return g.r.Float64() < p }
 
-var projects = []string{"p", "p", "p", "P", "p%", "p_", "pp", "p/x"}
+var projects = []string{"p", "p", "p", "P", "p%", "p_", "pp", "p/x", "pé", "pé", "é"}
 
 func (g *Gen) project() string {
 	if g.profile == "names" {
